@@ -451,9 +451,11 @@ def run_one(ch, env):
             res["nontrivial"] = nops >= 2
         elif wf == "study":
             scheme = ("L/Y/YX", "LXY")[ch.draw(2, kind="scheme")]
-            fmt = ("png", "npy", "fits")[ch.draw(3, kind="format")]
-            arr = study_image(ch, "rgb" if fmt == "png" else "f32")
+            fmt = ("png", "npy", "fits", "jpg")[ch.draw(4, kind="format")]
+            arr = study_image(ch, "rgb" if fmt in ("png", "jpg") else "f32")
             lv, ref = study_tiles(arr)
+            if fmt == "jpg":
+                ref = None      # lossy: names, file type and levels only
             res["config"].update(scheme=scheme, format=fmt, shape=list(arr.shape), tile_levels=lv)
             res["probes"]["scheme_" + scheme.replace("/", "")] = 1
             label = "study tiling (%s, %s, %dx%d, %d workers)" % (scheme, fmt, arr.shape[1], arr.shape[0], workers)
